@@ -43,7 +43,7 @@ Shapes == {x \in [dialect : Dialects, mark : Marks, queue : Queues, tag : Tags, 
              /\ (x.dialect = "old" => x.queue = "none")}   \* queue names came with the new format
 
 \* lines without a message: must never be reported as one
-JunkClasses == {"empty", "chatter", "timestamp-only", "prefix", "discarded", "trailing-text", "no-timestamp",
+JunkClasses == {"empty", "chatter", "timestamp-only", "odd-timestamp", "prefix", "discarded", "trailing-text", "no-timestamp",
                 "bad-id", "no-dot", "no-paren", "bracketed-chatter"}
 
 CONSTANT MaxArgs
